@@ -212,6 +212,47 @@ end Acc
 def readAll {D : Type} (hl : Bytes → D) (hn : D → D → D) (t : Tree Bytes D) (r : Bytes) (seg : Nat) : Tree Bytes D :=
   pushAll hl hn t (chunks seg r.length r)
 
+/-! ### `io.Reader`s that deliver the stream in pieces
+
+A reader is a list of pieces (a `Read` never crosses a seam: `io.MultiReader`, the Writes of an `io.Pipe`, the refills of a
+`bufio.Reader`) plus a policy `pol k req` = the most the `k`-th call delivers when asked for `req` bytes (`iotest.HalfReader`:
+`(req+1)/2`, `OneByteReader`: `1`, `0` = the empty read `(0, nil)`).  `Tree.ReadAll` fills every segment with `io.ReadFull`
+= `io.ReadAtLeast(r, buf, len(buf))`, which calls `Read` until the segment is full or the reader is at its end. -/
+structure Rd where
+  pieces : List Bytes
+  pol : Nat → Nat → Nat
+  calls : Nat := 0
+
+/-- the bytes still to come -/
+def Rd.flat (r : Rd) : Bytes := r.pieces.flatten
+
+/-- one `Read(p)`, `len(p) = req`: the bytes delivered and the reader afterwards; `none` = `(0, io.EOF)` -/
+def Rd.read (r : Rd) (req : Nat) : Option (Bytes × Rd) :=
+  match r.pieces.dropWhile (·.isEmpty) with
+  | [] => none
+  | c :: rest =>
+    let k := min (min req c.length) (r.pol r.calls req)
+    some (c.take k, { r with pieces := c.drop k :: rest, calls := r.calls + 1 })
+
+/-- `io.ReadFull` into a buffer with `need` free bytes: (bytes read, reader afterwards, reader at its end).  The fuel bounds the
+number of `Read` calls (a reader that returns `(0, nil)` for ever does not let the Go loop terminate; not modelled). -/
+def readFull : Nat → Rd → Nat → Bytes → Bytes × Rd × Bool
+  | 0, r, _, acc => (acc, r, false)
+  | f+1, r, need, acc =>
+    if need = 0 then (acc, r, false) else
+    match r.read need with
+    | none => (acc, r, true)
+    | some (b, r') => readFull f r' (need - b.length) (acc ++ b)
+
+/-- the leaves `Tree.ReadAll(r, seg)` pushes: `io.EOF` (nothing read) ends the loop, `io.ErrUnexpectedEOF` marks the short last
+segment -/
+def readAllR (seg inner : Nat) : Nat → Rd → List Bytes
+  | 0, _ => []
+  | f+1, r =>
+    match readFull inner r seg [] with
+    | (s, r', eof) =>
+      if s.isEmpty then [] else if eof then [s] else s :: readAllR seg inner f r'
+
 /-! ## B. the Vortex tree -/
 section Vortex
 variable {D : Type} (hn : D → D → D) (zero : D)
@@ -325,13 +366,46 @@ def tamper (kind : String) (a : Nat) (n : Nat) (rt : Option Sym) (lf : Option By
     else some (rt, lf, sibs, i)
   | _ => none
 
+/-- cut `b` into consecutive pieces of the given sizes, the rest in a last piece -/
+def cutPieces : List Nat → Bytes → List Bytes
+  | [], b => [b]
+  | k :: ks, b => b.take k :: cutPieces ks (b.drop k)
+
+def blocksOf (k : Nat) : Nat → Bytes → List Bytes
+  | 0, _ => []
+  | f+1, b => if b.isEmpty then [] else b.take k :: blocksOf k f (b.drop k)
+
+/-- the reader of a spec of the line protocol over the stream `b` (`none` = unknown spec) -/
+def readerOf (spec : String) (seg : Nat) (b : Bytes) : Option Rd :=
+  let all : Nat → Nat → Nat := fun _ req => req
+  match spec.splitOn "=" with
+  | ["full"] => some { pieces := [b], pol := all }
+  | ["dataerr"] => some { pieces := [b], pol := all }
+  | ["half"] => some { pieces := [b], pol := fun _ req => (req + 1) / 2 }
+  | ["one"] => some { pieces := [b], pol := fun _ _ => 1 }
+  | ["bufio"] => some { pieces := if seg < 16 then blocksOf 16 b.length b else [b], pol := all }
+  | [kind, arg] =>
+    let sizes := (arg.splitOn ",").map parseHexD
+    if sizes.all (· == 0) ∨ sizes.length > 64 then none else
+    match kind with
+    | "multi" => some { pieces := cutPieces sizes b, pol := all }
+    | "pipe" => some { pieces := cutPieces sizes b, pol := all }
+    | "chunk" => some { pieces := [b], pol := fun k _ => sizes.getD (k % sizes.length) 0 }
+    | "chunkeof" => some { pieces := [b], pol := fun k _ => sizes.getD (k % sizes.length) 0 }
+    | _ => none
+  | _ => none
+
+/-- the leaves `ReadAll` pushes when it reads the stream `b` through the reader of the spec -/
+def readLeaves (spec : String) (seg : Nat) (b : Bytes) : Option (List Bytes) :=
+  (readerOf spec seg b).map (readAllR seg ((b.length + 2) * 66) (b.length + 1))
+
 def showObs : Option (Obs Bytes Bytes) → String
   | some (.root r) => optHex r
   | some (.prove (rt, lf, sibs, pi, nl)) =>
     s!"{optHex rt} {toHex nl} {proofHex lf sibs} {boolStr (verifyProof shaL shaN rt lf sibs pi nl)}"
   | _ => "bad-op"
 
-def runDecomp (i : Option Nat) (ops : List String) : String := Id.run do
+def runDecomp (i : Option Nat) (ops : List String) (alias : Bool := false) : String := Id.run do
   let mut t : Tree Bytes Bytes := match i with
     | some k => { pidx := k, proofTree := true }
     | none => {}
@@ -356,6 +430,13 @@ def runDecomp (i : Option Nat) (ops : List String) : String := Id.run do
       let sg := parseHexD seg
       if sg = 0 then outs := outs ++ ["bad-op"] else
       t := readAll shaL shaN t b sg; flat := flat ++ chunks sg b.length b; outs := outs ++ ["ok"]
+    | ["R", seg, bs, spec] =>
+      let b := parseBytes bs
+      let sg := parseHexD seg
+      if sg = 0 then outs := outs ++ ["bad-op"] else
+      match readLeaves spec sg b with
+      | none => outs := outs ++ ["bad-op"]
+      | some ls => t := pushAll shaL shaN t ls; flat := flat ++ chunks sg b.length b; outs := outs ++ ["ok"]
     | ["Or"] =>
       let r := hstep shaL shaN t .root
       t := r.1; outs := outs ++ [showObs r.2]
@@ -363,6 +444,10 @@ def runDecomp (i : Option Nat) (ops : List String) : String := Id.run do
       if !t.proofTree then outs := outs ++ ["bad-op"] else
       let r := hstep shaL shaN t .prove
       t := r.1; outs := outs ++ [showObs r.2]
+    -- `acca` (the caller reuses its memory): the model's values are immutable: what was returned keeps its value (`Ov`), and
+    -- overwriting it (`Om`) is not an operation on the tree
+    | ["Ov"] => outs := outs ++ [if alias then "same" else "bad-op"]
+    | ["Om"] => outs := outs ++ [if alias then "ok" else "bad-op"]
     | ["I", k] =>
       match setIndex t (parseHexD k) with
       | some t' => t := t'; outs := outs ++ ["ok"]
@@ -452,12 +537,25 @@ def handle : List String → String
     | none => "bad-op"
     | some (rt', lf', sibs', pi') => boolStr (verifyProof Sym.leaf Sym.node rt' lf' sibs' pi' nl)
   | "accd" :: "sha256" :: i :: ops => runDecomp (if i == "x" then none else some (parseHexD i)) ops
+  | "acca" :: "sha256" :: i :: ops => runDecomp (if i == "x" then none else some (parseHexD i)) ops true
+  | ["vxa", n, i, pat, _seed] => vxHandle (parseHexD n) (parseInt i) pat "none" 0
   | ["accr", "sha256", i, seg, bs] =>
     -- `ReaderRoot` = New, ReadAll, Root;  `BuildReaderProof` = New, SetIndex, ReadAll, Prove (+ error on an empty proof set)
     let sg := parseHexD seg
     if sg = 0 then "bad-op" else
     if i == "x" then optHex (root shaN (readAll shaL shaN ({} : Tree Bytes Bytes) (parseBytes bs) sg)) else
     let t := readAll shaL shaN ({ pidx := parseHexD i, proofTree := true } : Tree Bytes Bytes) (parseBytes bs) sg
+    let (rt, lf, _, _, nl) := prove shaN t
+    if lf.isNone then s!"err:notreached {optHex rt} {toHex nl}" else showProve shaL shaN id t
+  | ["accr", "sha256", i, seg, bs, spec] =>
+    -- the same through a reader that delivers the stream in pieces: the leaves are what the model of `io.ReadFull` collects
+    let sg := parseHexD seg
+    if sg = 0 then "bad-op" else
+    match readLeaves spec sg (parseBytes bs) with
+    | none => "bad-op"
+    | some ls =>
+    if i == "x" then optHex (root shaN (pushAll shaL shaN ({} : Tree Bytes Bytes) ls)) else
+    let t := pushAll shaL shaN ({ pidx := parseHexD i, proofTree := true } : Tree Bytes Bytes) ls
     let (rt, lf, _, _, nl) := prove shaN t
     if lf.isNone then s!"err:notreached {optHex rt} {toHex nl}" else showProve shaL shaN id t
   | ["accti", "sha256", n, i, seed, pairs] => accIdxHandle (parseHexD n) (parseHexD i) (parseHexD seed) (pairs.splitOn ",")
